@@ -14,7 +14,7 @@ func init() {
 	register(&Property{
 		ID:          "C05",
 		Run:         runC05,
-		Explanation: "Decides the structural clauses that keep per-source order towards every destination: (R1) the v1 fan-out joins all branch senders of a message before it takes the next one; (R2) the parallel node hands every job to the in-order coordinator in the node's own goroutine on the very select arm that dispatched it, the coordinator waits for each job before forwarding, and it is the only user of the node's Send; (R3) the set of channel sends of *Message in the stream package is closed and every send inside a goroutine literal is one of the tabled, joined ones; (R4) a shared destination subtree is entered under its mutex (held across the whole pass, poison checked after the lock and set before the unlock) and doTaskAttempt is only re-entered by itself; (R5) the v2 tainted loop is sequential with a pre-captured span and status mutations in it touch only the current sub-batch; (R6) sub-batches/clones never alias the parent's slices; (R7) the write entry points of a destination have a closed caller set.",
+		Explanation: "Decides the structural clauses that keep per-source order towards every destination: (R1) the v1 fan-out joins all branch senders of a message before it takes the next one; (R2) the parallel node hands every job to the in-order coordinator in the node's own goroutine on the very select arm that dispatched it, the coordinator waits for each job before forwarding, and it is the only user of the node's Send; (R3) the set of channel sends of *Message in the stream package is closed and every send inside a goroutine literal is one of the tabled, joined ones; (R4) a shared destination subtree is entered under its mutex (held across the whole pass, poison checked after the lock and set before the unlock) and doTaskAttempt is only re-entered by itself; (R5) the v2 tainted loop is sequential with a pre-captured span and status mutations in it touch only the current sub-batch; (R6) sub-batches/clones never alias the parent's slices; (R7) the write entry points of a destination have a closed caller set. Rules added later (after independent seeded changes and defect hunts) are not all enumerated here: every armed rule is listed with its description, kind and instance count under coverage.rules.",
 		NotDecided:  []string{"channel scheduling and fan-in merge fairness", "actual run-time orders", "that a destination plugin writes in call order"},
 		Assumptions: []string{"Go channels are FIFO", "sync.WaitGroup / sync.Mutex semantics", "conc pool Wait joins all Go calls"},
 	})
